@@ -282,6 +282,11 @@ func ZZ_C04_NM_DecodeNoPanic() {
 	}
 	d := ds[i]
 	buf := zzsym.BytesUpTo("buf", zzsym.Param("B_"+d.name))
+	if first := zzsym.Param("FIRST"); first >= 0 {
+		// input class "buffers whose first byte is FIRST" (e.g. 0xFF: a 9-byte count prefix), used where the
+		// fully arbitrary buffer of that size has too many paths
+		zzsym.Assume(len(buf) >= 1 && buf[0] == byte(first))
+	}
 	src := common.NewZeroCopySource(buf)
 	err := d.dec(src)
 	zzsym.Assert(src.Pos() <= uint64(len(buf)), "the decoder never reads past the buffer")
